@@ -57,9 +57,18 @@ def outcome(fn):
         return "refused"
 
 
-def write_fs(root, d):
-    """Lay d out the way FileSystemSink would (type/id/modified.json or type/id.json)."""
+def write_fs(root, d, legacy=False):
+    """Lay d out the way FileSystemSink would (type/id/modified.json or type/id.json).  legacy=True: the older flat layout
+    type/id.json for a versioned object, next to another object of the same type in the versioned layout (both are documented
+    as readable)."""
     tdir = os.path.join(root, d["type"])
+    if legacy and "modified" in d:
+        os.makedirs(tdir, exist_ok=True)
+        with open(os.path.join(tdir, d["id"] + ".json"), "w", encoding="utf-8") as f:
+            json.dump(d, f)
+        sib = dict(d)
+        sib["id"] = d["type"] + "--11111111-2222-4333-8444-555555555555"
+        return write_fs(root, sib)
     if "modified" in d:
         odir = os.path.join(tdir, d["id"])
         os.makedirs(odir, exist_ok=True)
@@ -157,6 +166,17 @@ def entry_points(d, v, tmp):
         r = stix2.FileSystemSource(root).query([Filter("type", "=", d["type"])], version=v)
         return r[0] if r else None
 
+    def fs_legacy_get():
+        root = fs_dir()
+        write_fs(root, d, legacy=True)
+        return stix2.FileSystemSource(root).get(sid, version=v)
+
+    def fs_legacy_query():
+        root = fs_dir()
+        write_fs(root, d, legacy=True)
+        r = [x for x in stix2.FileSystemSource(root).query([Filter("id", "=", sid)], version=v)]
+        return r[0] if r else None
+
     eps += [("MemoryStore(stix_data=[d], version)", mem_store_ctor, "class"), ("MemorySource(stix_data=[d], version)", mem_source_ctor, "class"),
             ("MemorySink(stix_data=[d], version)", mem_sink_ctor, "accept"), ("MemoryStore.add(d, version)", mem_store_add, "class"),
             ("MemoryStore.add([d], version)", mem_store_add_list, "class"), ("MemorySink.add(d, version)", mem_sink_add, "accept"),
@@ -165,6 +185,9 @@ def entry_points(d, v, tmp):
             ("FileSystemSink.add(d, version)", fs_sink_add, "written"), ("FileSystemSink.add + FileSystemSource.get(version)", fs_store_add_get, "class"),
             ("FileSystemSource.get(id, version)", fs_source_get, "class"), ("FileSystemSource.all_versions(id, version)", fs_source_all_versions, "class"),
             ("FileSystemSource.query(filters, version)", fs_source_query, "class")]
+    if "modified" in d:
+        eps += [("FileSystemSource.get(id, version) [legacy flat file]", fs_legacy_get, "class"),
+                ("FileSystemSource.query(id, version) [legacy flat file]", fs_legacy_query, "class")]
     return eps
 
 
